@@ -1362,7 +1362,7 @@ def python_snippet(case):
     return ("import sys; sys.path.insert(0, '/verif/tools'); from props import c12; "
             "print(c12._hist_impl(%r))" % (case,))
 
-LEVEL_TEXT = ('Machine-checked Coq theorems (34, all closed under the global context) about a line-by-line Gallina model of find_orfs, '
+LEVEL_TEXT = ('Machine-checked Coq theorems (36, all closed under the global context) about a line-by-line Gallina model of find_orfs, '
               '_frame_start, _inds2orf, the codon locator of match(), BioSeq/BioBasket.find_orfs and the len_* filters. Every clause of the '
               'property text is a theorem about the model: '
               '(1) every mode, every sequence, rf, minlen, no hypothesis: the fuelled pairing loop terminates within |starts|+|stops|+1 '
@@ -1401,7 +1401,9 @@ LEVEL_TEXT = ('Machine-checked Coq theorems (34, all closed under the global con
               'names, ints, tuples, one numpy integer / float / None (TypeError), another string (AssertionError), and tuples with REPEATED '
               'frames through a loop that hands the popped match lists on to a later pass over the same frame (orfs_frames_st; without '
               'repetition it is proved equal to the plain loop) (C12_rf_forms); frames outside -3..2 hold no codon '
-              '(C12_out_of_range_frame). is_orf is a predicate on the TEXT: on gap-free input it is stated by positions and word '
+              '(C12_out_of_range_frame); for every rf form the call raises the documented class or returns a list satisfying the invariants, '
+              'repeated frames included (C12_any_rf_invariants); under default settings a frame requested again adds nothing, the result '
+              'is that of the tuple without repetitions (C12_default_any_frames). is_orf is a predicate on the TEXT: on gap-free input it is stated by positions and word '
               'prefixes only (C12_is_orf_text), and on any gapped text the listed ORFs are one to one, in order, the text-level ORFs of '
               'the degapped sequence (C12_default_orfs_text). The model is tied to sugar by differential testing on every '
               'run (run_C12 and run_C12_basket); an independent codon-scan oracle checks the property text on the same cases.')
